@@ -128,6 +128,32 @@ Definition same_content (x y : release) : Prop :=
 Definition rollback_target (fl : flags) (l0 : list release) : nat :=
   match f_version fl with 0 => mx l0 - 1 | v => v end.
 
+(* ---- which storage writes the injected failure may hit ---- *)
+(* for "at most one deployed": anything but a write that marks a record superseded *)
+Definition fail_ok2 (e : eff) : Prop :=
+  match e with SUpdate x => st x <> SSuperseded | _ => True end.
+(* for the success postconditions: nor the final status write (deployed / uninstalled) *)
+Definition fail_ok3 (e : eff) : Prop :=
+  match e with
+  | SUpdate x => st x <> SSuperseded /\ st x <> SDeployed /\ st x <> SUninstalled
+  | _ => True
+  end.
+Lemma fail_ok3_2 e : fail_ok3 e -> fail_ok2 e.
+Proof. destruct e; simpl; tauto. Qed.
+
+(* a storage Create / Delete that failed does not answer success *)
+Definition honest (dresp : forall e : eff, resp e) : Prop :=
+  (forall x, dresp (SCreate x) <> SOk) /\ (forall v, dresp (SDelete v) <> SOk).
+
+Lemma upd_of_dep_only c x l l' :
+  dep_only c l -> (st x = SDeployed -> rev x = c) -> upd_of x l l' -> dep_only c l'.
+Proof. intros H Hx [->| ->]; auto. now apply dep_only_replace. Qed.
+
+(* the failing write cannot be one that supersedes *)
+Ltac no_sup_fail HF2 :=
+  let HFe := fresh "HFe" in
+  intros _ HFe; apply HF2 in HFe; cbn in HFe; exfalso; apply HFe; reflexivity.
+
 (* close a failure branch with a lemma whose post is [DG l /\ out <> OOk] *)
 Ltac by_fail H :=
   eapply wp_conseq;
@@ -140,9 +166,13 @@ Section Dep.
   Variable kh : forall e : eff, K -> K * resp e * list kev.
   Variable dresp : forall e : eff, resp e.
   Variable f : sfaults.
-  Hypothesis Hw : wfail f = None.                      (* H1 *)
+  Variable F : eff -> Prop.                            (* the writes the injected failure may hit *)
+  Hypothesis Hsafe : wfail f = None \/ honest dresp.
+  Hypothesis HF2 : forall e, F e -> fail_ok2 e.        (* H1, narrow form *)
+  (* needed in addition for the success postconditions *)
+  Definition S3 : Prop := forall e, F e -> fail_ok3 e.
   Variable rn ns : string.
-  Notation wpA := (wpA kh dresp f).
+  Notation wpA := (wpA kh dresp f F).
   Notation G := (fun (l : list release) (_ : list nat) => DG l).
 
   Lemma created_D x l0 cs0 l c e :
@@ -152,7 +182,8 @@ Section Dep.
   Proof.
     intros [[-> [l' [-> [Hi _]]]]|[Hi [_ He]]].
     - left. split; auto. exists l'. auto.
-    - right. split; auto. intros ->. destruct (He eq_refl) as [X _]. congruence.
+    - right. split; auto. intros ->. destruct (He eq_refl) as [X Y].
+      destruct Hsafe as [Hn|[Hc _]]; [congruence|]. now apply Hc in Y.
   Qed.
 
   Lemma supersede_all_D ds : forall l cs c,
@@ -161,7 +192,7 @@ Section Dep.
   Proof.
     induction ds as [|d t IH]; intros l cs c Hc; cbn [supersede_all]; wp_norm.
     - apply wp_ret. auto.
-    - apply wp_update; [exists c; exact Hc|intros X; congruence|].
+    - apply wp_update; [exists c; exact Hc|no_sup_fail HF2|].
       apply (IH _ _ c). apply dep_only_replace_nd; auto. simpl. discriminate.
   Qed.
 
@@ -170,9 +201,31 @@ Section Dep.
   Proof.
     induction vs as [|v t IH]; intros l cs; cbn [purge]; wp_norm.
     - apply wp_ret. auto.
-    - apply wp_delete; [exact I|intros X; congruence|].
-      destruct (has_rev v l); [apply IH|apply wp_ret; discriminate].
+    - apply wp_delete; [exact I| |].
+      + intros Hn _. destruct Hsafe as [X|[_ Hdel]]; [congruence|].
+        destruct (dresp (SDelete v)) eqn:E; [exfalso; eapply Hdel; eauto|..]; apply wp_ret; discriminate.
+      + destruct (has_rev v l); [apply IH|apply wp_ret; discriminate].
   Qed.
+
+  (* a failure handler that never writes a deployed payload and never returns success *)
+  Lemma fail_path (p : prog outcome) l cs c :
+    dep_only c l -> all_eff nd_nc p -> leaves (fun o => o <> OOk) p ->
+    wpA G p (fun l' _ out => DG l' /\ out <> OOk) l cs.
+  Proof.
+    intros Hc Ha Hl.
+    eapply wp_conseq; [apply wp_leaves; [exact Hl|apply wp_nd_nc; exact Ha]| |]; cbv beta.
+    - intros l1 _ [Hs _]. exists c. eapply dep_only_sub; eauto.
+    - intros l1 _ a [[Hs _] Ha']. split; auto. exists c. eapply dep_only_sub; eauto.
+  Qed.
+
+  (* the final "deployed" write fails: allowed by H1 for the invariant, excluded by S3 for success *)
+  Ltac final_fail Hn :=
+    let HFe := fresh "HFe" in
+    intros _ HFe;
+    try (match goal with |- context [dresp ?e] => destruct (dresp e) end);
+    apply wp_ret;
+    (split; [apply dep_none_DG; exact Hn
+            |try discriminate; intros _ _ H3; exfalso; destruct (H3 _ HFe) as [_ [X _]]; apply X; reflexivity]).
 
   (* invariants between the Create of the new record [x] and the final writes *)
   Definition mid (c : nat) (x : release) (l0 l : list release) : Prop :=
@@ -191,7 +244,7 @@ Section Dep.
 
   Definition rollback_post (fl : flags) (l0 l' : list release) (out : outcome) : Prop :=
     DG l' /\
-    (out = OOk -> f_dry_run fl = false ->
+    (out = OOk -> f_dry_run fl = false -> S3 ->
      exists x pr, succ_new l0 l' x /\ (NoDup (revs l0) -> prev_superseded l0 l') /\
                   find (fun r => Nat.eqb (rev r) (rollback_target fl l0)) l0 = Some pr /\
                   same_content x pr).
@@ -224,27 +277,20 @@ Section Dep.
     assert (Hfailp : forall l c2, dep_only c l ->
               wpA G (Eff (SUpdate (with_status tgt SFailed)) (fun _ => Ret (OErr EOtherErr)))
                   (fun l'0 _ out => DG l'0 /\ out <> OOk) l c2).
-    { intros l c2 Hl. apply wp_update; [now exists c|intros X; congruence|].
-      apply wp_ret. split; [|discriminate]. exists c. apply dep_only_replace_nd; auto. simpl. discriminate. }
+    { intros l c2 Hl. apply wp_update_any; [now exists c|]. intros lw r0 _ Hu.
+      apply wp_ret. split; [|discriminate]. exists c.
+      eapply upd_of_dep_only; [exact Hl| |exact Hu]. simpl. discriminate. }
     wp_piece wp_quiet; [apply ae_run_hooks| |]; cbv beta.
     { intros l2 _ [Hu _]. eapply mid_DG. eapply mid_upd; eauto. }
     intros l2 c2 pre [Hu2 _]. pose proof (mid_upd _ _ _ _ _ Htnd Hmid1 Hu2) as Hmid2.
     destruct (negb pre); [by_fail Hfailp; apply Hmid2|].
     apply wp_cluster; [reflexivity|eapply mid_DG; eauto|]. intros u.
     destruct (negb (fst u)).
-    { apply wp_update; [eapply mid_DG; eauto|intros X; congruence|].
-      apply wp_update; [exists c; apply dep_only_replace_nd; [apply Hmid2|simpl; discriminate]|intros X; congruence|].
-      assert (Hd : dep_only c (replace_rev (with_status tgt SFailed) (replace_rev (with_status cur SSuperseded) l2))).
-      { apply dep_only_replace_nd; [|simpl; discriminate]. apply dep_only_replace_nd; [apply Hmid2|simpl; discriminate]. }
-      destruct (f_cleanup fl).
-      - apply wp_cluster; [reflexivity|now exists c|]. intros _. apply wp_ret. split; [now exists c|discriminate].
-      - apply wp_ret. split; [now exists c|discriminate]. }
+    { by_fail fail_path; [apply Hmid2|ae|lv]. }
     apply wp_cluster; [reflexivity|eapply mid_DG; eauto|]. intros w.
     destruct (negb w).
-    { assert (Hd : dep_only c (replace_rev cur l2)).
-      { apply dep_only_replace; [apply Hmid2|]. intros Hs. now apply Hc. }
-      apply wp_update; [eapply mid_DG; eauto|intros X; congruence|].
-      by_fail Hfailp; exact Hd. }
+    { apply wp_update_any; [eapply mid_DG; eauto|]. intros lw r0 _ Huw. by_fail Hfailp.
+      eapply upd_of_dep_only; [apply Hmid2| |exact Huw]. intros Hs. now apply Hc. }
     wp_piece wp_quiet; [apply ae_run_hooks| |]; cbv beta.
     { intros l3 _ [Hu _]. eapply mid_DG. eapply mid_upd; eauto. }
     intros l3 c3 post [Hu3 _]. pose proof (mid_upd _ _ _ _ _ Htnd Hmid2 Hu3) as Hmid3.
@@ -256,10 +302,10 @@ Section Dep.
     pose proof (sup_all_deployed_none l3) as Hnone. fold is_deployed.
     set (l4 := sup_all (filter is_deployed l3) l3) in *.
     set (x := with_status tgt SDeployed).
-    apply wp_update; [exists c; now apply dep_none_only|intros X; congruence|].
+    apply wp_update; [exists c; now apply dep_none_only|final_fail Hnone|].
     assert (HDG : DG (replace_rev x l4)) by (exists (rev x); now apply dep_none_deploy).
     destruct (has_rev (rev x) l4) eqn:Hhas; apply wp_ret; (split; [exact HDG|]); [|discriminate].
-    intros _ _. exists x, pr.
+    intros _ _ _. exists x, pr.
     assert (Hb4 : forall r, In r l4 -> rev r <= S (rev cur)).
     { intros r Hr. assert (X : In (rev r) (revs l4)) by (now apply in_map).
       unfold l4 in X. rewrite revs_sup_all in X. apply in_revs in X. destruct X as [r' [Hr' E]].
@@ -287,9 +333,9 @@ Section Dep.
     wpA G (upgrade_fail rn ns fl up created) (fun l' _ out => DG l' /\ out <> OOk) l cs.
   Proof.
     intros Hc. unfold upgrade_fail. wp_norm.
-    apply wp_update; [now exists c|intros X; congruence|].
-    assert (Hd : dep_only c (replace_rev (with_status up SFailed) l))
-      by (apply dep_only_replace_nd; [auto|simpl; discriminate]).
+    apply wp_update_any; [now exists c|]. intros lf r0 _ Hu.
+    assert (Hd : dep_only c lf)
+      by (eapply upd_of_dep_only; [exact Hc| |exact Hu]; simpl; discriminate).
     wp_piece wp_no_write; [ae| |]; cbv beta.
     { intros l1 _ [-> _]. now exists c. }
     intros l1 c1 cleaned [-> ->].
@@ -304,7 +350,7 @@ Section Dep.
   Definition upgrade_post (fl : flags) (cid vid : nat) (mani : list res) (hks : list hook)
              (l0 l' : list release) (out : outcome) : Prop :=
     DG l' /\
-    (out = OOk -> f_dry_run fl = false ->
+    (out = OOk -> f_dry_run fl = false -> S3 ->
      exists x, succ_new l0 l' x /\ prev_superseded l0 l' /\
                chart_id x = cid /\ config_id x = vid /\ manifest x = mani /\ hooks x = hks).
 
@@ -364,28 +410,28 @@ Section Dep.
     intros l2 c2 pre [Hu2 _]. pose proof (mid_upd _ _ _ _ _ Hund Hmid1 Hu2) as Hmid2.
     destruct (negb pre); [by_fail upgrade_fail_D; apply Hmid2|].
     apply wp_cluster; [reflexivity|eapply mid_DG; eauto|]. intros u.
-    assert (Hcur2 : dep_only (rev current) (replace_rev current l2)).
-    { apply dep_only_replace; [apply Hmid2|auto]. }
+    assert (Hcur2 : forall l', upd_of current l2 l' -> dep_only (rev current) l').
+    { intros lw Huw. eapply upd_of_dep_only; [apply Hmid2| |exact Huw]. auto. }
     destruct (negb (fst u)).
-    { apply wp_update; [eapply mid_DG; eauto|intros X; congruence|]. by_fail upgrade_fail_D; exact Hcur2. }
+    { apply wp_update_any; [eapply mid_DG; eauto|]. intros lw r0 _ Huw. by_fail upgrade_fail_D; exact (Hcur2 lw Huw). }
     apply wp_cluster; [reflexivity|eapply mid_DG; eauto|]. intros w.
     destruct (negb w).
-    { apply wp_update; [eapply mid_DG; eauto|intros X; congruence|]. by_fail upgrade_fail_D; exact Hcur2. }
+    { apply wp_update_any; [eapply mid_DG; eauto|]. intros lw r0 _ Huw. by_fail upgrade_fail_D; exact (Hcur2 lw Huw). }
     wp_piece wp_quiet; [apply ae_run_hooks| |]; cbv beta.
     { intros l3 _ [Hu _]. eapply mid_DG. eapply mid_upd; eauto. }
     intros l3 c3 post [Hu3 _]. pose proof (mid_upd _ _ _ _ _ Hund Hmid2 Hu3) as Hmid3.
     destruct (negb post); [by_fail upgrade_fail_D; apply Hmid3|].
     destruct Hmid3 as [Hd3 [Hin3 Hx3]].
-    apply wp_update; [now exists (rev current)|intros X; congruence|].
+    apply wp_update; [now exists (rev current)|no_sup_fail HF2|].
     set (sup := with_status current SSuperseded).
     set (la := replace_rev sup l3).
     assert (Hnone : dep_none la).
     { apply (dep_only_supersede (rev current)); auto. simpl. discriminate. }
-    apply wp_update; [exists 0; now apply dep_none_only|intros X; congruence|].
+    apply wp_update; [exists 0; now apply dep_none_only|final_fail Hnone|].
     set (x := with_status up SDeployed).
     assert (HDG : DG (replace_rev x la)) by (exists (rev x); now apply dep_none_deploy).
     destruct (has_rev (rev x) la) eqn:Hhas; apply wp_ret; (split; [exact HDG|]); [|discriminate].
-    intros _ _. exists x.
+    intros _ _ _. exists x.
     assert (Hba : forall r, In r la -> rev r <= S (rev last)).
     { intros r Hr. apply in_replace_rev_weak in Hr. destruct Hr as [->|Hr].
       - simpl. specialize (Hle current Hcin). lia.
@@ -425,7 +471,7 @@ Section Dep.
   Definition install_post (fl : flags) (cid vid : nat) (mani : list res) (hks : list hook)
              (l0 l' : list release) (out : outcome) : Prop :=
     DG l' /\
-    (out = OOk -> f_dry_run fl = false ->
+    (out = OOk -> f_dry_run fl = false -> S3 ->
      exists x, succ_new l0 l' x /\ prev_superseded l0 l' /\
                chart_id x = cid /\ config_id x = vid /\ manifest x = mani /\ hooks x = hks).
 
@@ -466,7 +512,7 @@ Section Dep.
           destruct (status_eqb (st last) SFailed).
           * apply wp_ret. split; auto. split; auto. intros r0 H. inversion H; subst r0.
             unfold rel, with_rev. simpl. now rewrite Hm.
-          * apply wp_update; [auto|intros X; congruence|].
+          * apply wp_update; [auto|no_sup_fail HF2|].
             assert (Hn1 : dep_none (replace_rev (with_status last SSuperseded) l0))
               by (apply dep_none_replace_nd; [auto|simpl; discriminate]).
             destruct (has_rev _ l0); apply wp_ret; (split; [auto|split; [apply revs_replace|]]);
@@ -512,10 +558,10 @@ Section Dep.
     { intros l3 _ [Hu _]. apply dep_none_DG. eapply Hmid_upd; eauto. }
     intros lh3 ch3 post [Hu3 _]. pose proof (Hmid_upd _ _ Hmid2 Hu3) as [Hn3 [Hb3 Hx3]].
     destruct (negb post); [by_fail install_fail_D; exact Hn3|].
-    apply wp_update; [now apply dep_none_DG|intros X; congruence|].
+    apply wp_update; [now apply dep_none_DG|final_fail Hn3|].
     set (x := with_status rel SDeployed).
     apply wp_ret. split; [exists (rev x); now apply dep_none_deploy|].
-    intros _ _. exists x. split; [|split].
+    intros _ _ _. exists x. split; [|split].
     - split; [|split; [|split]].
       + apply in_replace_rev. left. split; auto. apply has_rev_true. exists rel. auto.
       + reflexivity.
@@ -534,7 +580,7 @@ Section Dep.
   Qed.
 
   Definition uninstall_post (fl : flags) (l' : list release) (out : outcome) : Prop :=
-    out = OOk -> f_dry_run fl = false ->
+    out = OOk -> f_dry_run fl = false -> S3 ->
     if f_keep_history fl
     then exists x, In x l' /\ st x = SUninstalled /\ forall r, In r l' -> rev r <= rev x
     else l' = [].
@@ -555,7 +601,7 @@ Section Dep.
     destruct (status_eqb (st last) SUninstalled).
     { destruct (f_keep_history fl) eqn:Hkeep; [apply wp_ret; discriminate|].
       wp_piece purge_D; cbv beta; [auto|].
-      intros l1 cp ok Hok. apply wp_ret. intros Hout _.
+      intros l1 cp ok Hok. apply wp_ret. intros Hout _ _.
       destruct ok; [|discriminate Hout]. rewrite (Hok eq_refl). apply remove_all_nil. now apply Hall. }
     set (rel := with_status last SUninstalling).
     wp_piece wp_quiet; [apply ae_run_hooks| |]; cbv beta; [auto|].
@@ -569,7 +615,10 @@ Section Dep.
     wp_piece wp_quiet; [apply ae_run_hooks| |]; cbv beta; [auto|].
     intros l3 c3 post [Hu3 _]. apply upd_of_revs in Hu3. rewrite Hr2 in Hu3.
     destruct (f_keep_history fl) eqn:Hkeep.
-    - apply wp_update; [exact I|intros X; congruence|]. apply wp_ret. intros _ _.
+    - apply wp_update; [exact I| |].
+      { intros _ HFe. apply wp_ret. intros _ _ H3. exfalso.
+        destruct (H3 _ HFe) as [_ [_ X]]. apply X. reflexivity. }
+      apply wp_ret. intros _ _ _.
       set (x := with_status rel SUninstalled). exists x. split; [|split].
       + apply in_replace_rev. left. split; auto. apply has_rev_true.
         assert (X : In (rev last) (revs l3)) by (rewrite Hu3; now apply in_map).
@@ -578,7 +627,7 @@ Section Dep.
       + intros r Hr. apply in_replace_rev_weak in Hr. destruct Hr as [->|Hr]; [reflexivity|].
         pose proof (revs_bound _ _ _ Hu3 Hr) as B. unfold mx in B. rewrite Hmax in B. exact B.
     - wp_piece purge_D; cbv beta; [auto|].
-      intros l4 cp ok Hok. apply wp_ret. intros Hout _.
+      intros l4 cp ok Hok. apply wp_ret. intros Hout _ _.
       destruct ok; [|destruct (w && post); discriminate Hout].
       rewrite (Hok eq_refl). apply remove_all_nil. now apply Hall.
   Qed.
@@ -620,19 +669,21 @@ Section OneOp.
   Variable dresp : forall e : eff, resp e.
   Variable rn ns : string.
 
-  Lemma op_D f o l0 :
-    wfail f = None -> NoDup (revs l0) -> DG l0 -> h2_op o l0 ->
-    wpA kh dresp f (fun l _ => DG l) (op_prog rn ns o)
-        (fun l' _ out => DG l' /\ (out = OOk -> f_dry_run (op_flags o) = false -> success_post o l0 l'))
+  Lemma op_D f (F : eff -> Prop) o l0 :
+    wfail f = None \/ honest dresp -> (forall e, F e -> fail_ok2 e) ->
+    NoDup (revs l0) -> DG l0 -> h2_op o l0 ->
+    wpA kh dresp f F (fun l _ => DG l) (op_prog rn ns o)
+        (fun l' _ out => DG l' /\
+           (out = OOk -> f_dry_run (op_flags o) = false -> S3 F -> success_post o l0 l'))
         l0 [].
   Proof.
-    intros Hw Hn HDG H2.
+    intros Hs HF2 Hn HDG H2.
     destruct o as [fl cid vid mani hks|fl cid vid mani hks|fl|fl]; cbn [op_prog op_flags success_post].
     - apply install_D; auto. intros Hr. apply ndep_zero_none. now apply H2.
     - apply upgrade_D; auto.
     - eapply wp_conseq; [apply rollback_D; auto|auto|]; cbv beta.
-      intros l' _ out [H1 H3]. split; auto. intros Ho Hd.
-      destruct (H3 Ho Hd) as [x [pr [A [B [C D]]]]]. exists x, pr. auto.
+      intros l' _ out [H1 H3]. split; auto. intros Ho Hd H3'.
+      destruct (H3 Ho Hd H3') as [x [pr [A [B [C D]]]]]. exists x, pr. auto.
     - eapply wp_conseq; [apply wp_and; [apply uninstall_D; auto|apply uninstall_S; auto]| |]; cbv beta.
       + intros l' _ [H _]. exact H.
       + intros l' _ out [H1 H3]. split; auto.
@@ -644,14 +695,23 @@ Section OneOp.
   Definition res_out (r : op_result) : outcome := snd (fst r).
   Definition res_trace (r : op_result) : list tev := snd r.
 
-  Lemma run_op_D f o l k0 :
-    wfail f = None -> NoDup (revs l) -> ndep l <= 1 -> h2_op o l ->
+  (* H1, narrow form, for one operation run from ledger l and cluster state k: the injected
+     storage-write failure of the plan f, if it fires at all, hits a write in F *)
+  Definition fail_hits_only (F : eff -> Prop) (o : op) (f : sfaults) (l : list release) (k : K) : Prop :=
+    fails_only K kh dresp f F (op_prog rn ns o) (mkR l k 0 0 false []).
+
+  Lemma fail_hits_only_none (F : eff -> Prop) o f l k : wfail f = None -> fail_hits_only F o f l k.
+  Proof. intros H. now apply fails_only_none. Qed.
+
+  Lemma run_op_D_gen f (F : eff -> Prop) o l k0 :
+    wfail f = None \/ honest dresp -> (forall e, F e -> fail_ok2 e) -> fail_hits_only F o f l k0 ->
+    NoDup (revs l) -> ndep l <= 1 -> h2_op o l ->
     let r := run_op K kh dresp rn ns o f l k0 in
     NoDup (revs (res_led r)) /\ ndep (res_led r) <= 1 /\
-    (res_out r = OOk -> f_dry_run (op_flags o) = false -> success_post o l (res_led r)).
+    (res_out r = OOk -> f_dry_run (op_flags o) = false -> S3 F -> success_post o l (res_led r)).
   Proof.
-    intros Hw Hn Hd H2.
-    pose proof (wp_run_op K kh dresp f _ _ _ l k0 (op_D f o l Hw Hn (ndep_DG _ Hd) H2)) as H.
+    intros Hs HF2 Hf Hn Hd H2.
+    pose proof (wp_run_op K kh dresp f _ _ _ _ l k0 (op_D f F o l Hs HF2 Hn (ndep_DG _ Hd) H2) Hf) as H.
     pose proof (run_revisions_unique K kh dresp outcome f (op_prog rn ns o) (mkR l k0 0 0 false []) Hn) as Hu.
     cbv zeta in *. unfold run_op, res_led, res_out.
     destruct (run K kh dresp f (op_prog rn ns o) (mkR l k0 0 0 false [])) as [s out].
@@ -659,6 +719,33 @@ Section OneOp.
     destruct (dead s) eqn:Hdead.
     - split; [apply DG_ndep; auto|]. discriminate.
     - destruct (H3 eq_refl) as [A B]. split; [apply DG_ndep; auto|]. exact B.
+  Qed.
+
+  (* coarse H1: no injected storage-write failure *)
+  Lemma run_op_D f o l k0 :
+    wfail f = None -> NoDup (revs l) -> ndep l <= 1 -> h2_op o l ->
+    let r := run_op K kh dresp rn ns o f l k0 in
+    NoDup (revs (res_led r)) /\ ndep (res_led r) <= 1 /\
+    (res_out r = OOk -> f_dry_run (op_flags o) = false -> success_post o l (res_led r)).
+  Proof.
+    intros Hw Hn Hd H2.
+    destruct (run_op_D_gen f fail_ok3 o l k0 (or_introl Hw) fail_ok3_2
+                (fail_hits_only_none _ o f l k0 Hw) Hn Hd H2) as [A [B C]].
+    split; auto. split; auto. intros Ho Hdry. apply C; auto. intros e He. exact He.
+  Qed.
+
+  (* narrow H1 for the success postcondition: the failing write, if any, is neither a
+     "superseded" write nor a final status write ("deployed", "uninstalled") *)
+  Lemma run_op_D_narrow f o l k0 :
+    honest dresp -> fail_hits_only fail_ok3 o f l k0 ->
+    NoDup (revs l) -> ndep l <= 1 -> h2_op o l ->
+    let r := run_op K kh dresp rn ns o f l k0 in
+    NoDup (revs (res_led r)) /\ ndep (res_led r) <= 1 /\
+    (res_out r = OOk -> f_dry_run (op_flags o) = false -> success_post o l (res_led r)).
+  Proof.
+    intros Hh Hf Hn Hd H2.
+    destruct (run_op_D_gen f fail_ok3 o l k0 (or_intror Hh) fail_ok3_2 Hf Hn Hd H2) as [A [B C]].
+    split; auto. split; auto. intros Ho Hdry. apply C; auto. intros e He. exact He.
   Qed.
 
   (* a history of operations, each with its own storage-fault plan; the cluster state is
@@ -680,20 +767,61 @@ Section OneOp.
         let r := run_op K kh dresp rn ns o f l k in h2_hist t (res_led r) (res_ks r)
     end.
 
-  Lemma run_ops_one_deployed h : forall l k,
+  (* narrow H1 along a history: no injected failure ever hits a "superseded" write *)
+  Fixpoint h1_hist (h : list (op * sfaults)) (l : list release) (k : K) : Prop :=
+    match h with
+    | [] => True
+    | (o, f) :: t =>
+        fail_hits_only fail_ok2 o f l k /\
+        let r := run_op K kh dresp rn ns o f l k in h1_hist t (res_led r) (res_ks r)
+    end.
+
+  Lemma h1_hist_none h : forall l k, (forall o f, In (o, f) h -> wfail f = None) -> h1_hist h l k.
+  Proof.
+    induction h as [|[o f] t IH]; intros l k H; simpl; auto. split.
+    - apply fail_hits_only_none. apply (H o f). now left.
+    - apply IH. intros o' f' Hin. apply (H o' f'). now right.
+  Qed.
+
+  Lemma run_ops_inv h : forall l k,
+    (forall o f, In (o, f) h -> wfail f = None \/ honest dresp) ->
+    NoDup (revs l) -> ndep l <= 1 -> h1_hist h l k -> h2_hist h l k ->
+    Forall (fun r => NoDup (revs (res_led r)) /\ ndep (res_led r) <= 1) (run_ops h l k).
+  Proof.
+    induction h as [|[o f] t IH]; intros l k Hs Hn Hd H1 H2; simpl; [constructor|].
+    destruct H1 as [H1o H1t]. destruct H2 as [H2o H2t].
+    destruct (run_op_D_gen f fail_ok2 o l k (Hs o f (or_introl eq_refl)) (fun e He => He) H1o Hn Hd H2o)
+      as [A [B _]].
+    constructor; auto. apply IH; auto. intros o' f' Hin. apply (Hs o' f'). now right.
+  Qed.
+
+  Lemma run_ops_one_deployed_narrow h l k :
+    honest dresp -> NoDup (revs l) -> ndep l <= 1 -> h1_hist h l k -> h2_hist h l k ->
+    Forall (fun r => ndep (res_led r) <= 1) (run_ops h l k).
+  Proof.
+    intros Hh Hn Hd H1 H2.
+    assert (Hs : forall o f, In (o, f) h -> wfail f = None \/ honest dresp) by (intros o f _; now right).
+    eapply Forall_impl; [|exact (run_ops_inv h l k Hs Hn Hd H1 H2)].
+    intros r [_ B]. exact B.
+  Qed.
+
+  Lemma run_ops_one_deployed h l k :
     NoDup (revs l) -> ndep l <= 1 ->
     (forall o f, In (o, f) h -> wfail f = None) ->
     h2_hist h l k ->
     Forall (fun r => ndep (res_led r) <= 1) (run_ops h l k).
   Proof.
-    induction h as [|[o f] t IH]; intros l k Hn Hd H1 H2; simpl; [constructor|].
-    destruct H2 as [H2o H2t].
-    destruct (run_op_D f o l k (H1 o f (or_introl eq_refl)) Hn Hd H2o) as [A [B _]].
-    constructor; auto. apply IH; auto. intros o' f' Hin. apply (H1 o' f'). now right.
+    intros Hn Hd Hw H2.
+    assert (Hs : forall o f, In (o, f) h -> wfail f = None \/ honest dresp) by (intros o f Hin; left; eauto).
+    eapply Forall_impl; [|exact (run_ops_inv h l k Hs Hn Hd (h1_hist_none h l k Hw) H2)].
+    intros r [_ B]. exact B.
   Qed.
 End OneOp.
 
 (* the same over the object-store instance, with out-of-band edits of the cluster *)
+Definition store_k0 (c : opcase) (w : world) : kstate :=
+  mkK (w_objs w) (cf_k (oc_cf c)) (cf_h (oc_cf c)) (cf_wait (oc_cf c)).
+
 Fixpoint h2_history (rn ns : string) (h : list hstep) (w : world) : Prop :=
   match h with
   | [] => True
@@ -701,32 +829,58 @@ Fixpoint h2_history (rn ns : string) (h : list hstep) (w : world) : Prop :=
   | HEdit e :: t => h2_history rn ns t (apply_edit w e)
   end.
 
+Fixpoint h1_history (rn ns : string) (h : list hstep) (w : world) : Prop :=
+  match h with
+  | [] => True
+  | HOp c :: t =>
+      fail_hits_only kstate (kube_handle rn ns) dead_resp rn ns fail_ok2 (oc_op c) (oc_sf c) (w_led w) (store_k0 c w)
+      /\ h1_history rn ns t (fst (fst (run_store_op rn ns c w)))
+  | HEdit e :: t => h1_history rn ns t (apply_edit w e)
+  end.
+
+Lemma dead_resp_is_honest : honest dead_resp.
+Proof. split; intros x; simpl; discriminate. Qed.
+
 Lemma run_store_op_led rn ns c w :
   w_led (fst (fst (run_store_op rn ns c w))) =
-  res_led kstate (run_op kstate (kube_handle rn ns) dead_resp rn ns (oc_op c) (oc_sf c) (w_led w)
-                         (mkK (w_objs w) (cf_k (oc_cf c)) (cf_h (oc_cf c)) (cf_wait (oc_cf c)))).
+  res_led kstate (run_op kstate (kube_handle rn ns) dead_resp rn ns (oc_op c) (oc_sf c) (w_led w) (store_k0 c w)).
 Proof.
-  unfold run_store_op, res_led.
+  unfold run_store_op, res_led, store_k0.
   destruct (run_op kstate (kube_handle rn ns) dead_resp rn ns (oc_op c) (oc_sf c) (w_led w) _) as [[[l k] out] t].
   reflexivity.
 Qed.
 
-Lemma history_one_deployed rn ns h : forall w,
+Lemma history_one_deployed_narrow rn ns h : forall w,
+  NoDup (revs (w_led w)) -> ndep (w_led w) <= 1 ->
+  h1_history rn ns h w -> h2_history rn ns h w ->
+  Forall (fun x => ndep (w_led (fst (fst x))) <= 1) (run_history rn ns h w).
+Proof.
+  induction h as [|s t IH]; intros w Hn Hd H1 H2; simpl; [constructor|].
+  destruct s as [c|e].
+  - destruct H1 as [H1o H1t]. destruct H2 as [H2o H2t].
+    pose proof (run_op_D_gen kstate (kube_handle rn ns) dead_resp rn ns (oc_sf c) fail_ok2 (oc_op c) (w_led w)
+                  (store_k0 c w) (or_intror dead_resp_is_honest) (fun e He => He) H1o Hn Hd H2o) as [A [B _]].
+    cbv zeta in A, B. rewrite <- run_store_op_led in A, B.
+    destruct (run_store_op rn ns c w) as [[w' out] tr] eqn:E. cbn [fst] in *.
+    constructor; [exact B|]. apply IH; auto.
+  - simpl in H1, H2. constructor.
+    + destruct e; exact Hd.
+    + apply IH; auto; destruct e; assumption.
+Qed.
+
+Lemma h1_history_none rn ns h : forall w,
+  (forall c, In (HOp c) h -> wfail (oc_sf c) = None) -> h1_history rn ns h w.
+Proof.
+  induction h as [|s t IH]; intros w H; simpl; auto. destruct s as [c|e].
+  - split; [apply fail_hits_only_none; apply H; now left|]. apply IH. intros c' Hin. apply H. now right.
+  - apply IH. intros c' Hin. apply H. now right.
+Qed.
+
+Lemma history_one_deployed rn ns h w :
   NoDup (revs (w_led w)) -> ndep (w_led w) <= 1 ->
   (forall c, In (HOp c) h -> wfail (oc_sf c) = None) ->
   h2_history rn ns h w ->
   Forall (fun x => ndep (w_led (fst (fst x))) <= 1) (run_history rn ns h w).
 Proof.
-  induction h as [|s t IH]; intros w Hn Hd H1 H2; simpl; [constructor|].
-  destruct s as [c|e].
-  - destruct H2 as [H2o H2t].
-    pose proof (run_op_D kstate (kube_handle rn ns) dead_resp rn ns (oc_sf c) (oc_op c) (w_led w)
-                  (mkK (w_objs w) (cf_k (oc_cf c)) (cf_h (oc_cf c)) (cf_wait (oc_cf c)))
-                  (H1 c (or_introl eq_refl)) Hn Hd H2o) as [A [B _]].
-    cbv zeta in A, B. rewrite <- run_store_op_led in A, B.
-    destruct (run_store_op rn ns c w) as [[w' out] tr] eqn:E. cbn [fst] in *.
-    constructor; [exact B|]. apply IH; auto. intros c' Hin. apply H1. now right.
-  - simpl in H2. constructor.
-    + destruct e; exact Hd.
-    + apply IH; auto; try (destruct e; assumption). intros c' Hin. apply H1. now right.
+  intros Hn Hd H1 H2. apply history_one_deployed_narrow; auto. now apply h1_history_none.
 Qed.
